@@ -99,7 +99,7 @@ def normalize(case, segments, tid):
         ev.append(rec)
         if seg["status"] == "finished":
             ev.append({"name": "final", "scr": scr, "cks": cks, "checkscr": not hard})
-    return {"id": tid, "cfg": model_cfg(case), "ev": ev}, problems
+    return {"id": tid, "cfg": model_cfg(case), "ev": ev, "resumed_from": -1}, problems
 
 
 def validate(traces, scratch, consts=None, flush_rows=100, max_crash=3, timeout=1800):
